@@ -398,7 +398,7 @@ def tie_refdefs(c, n, profile="debug"):
     return bad == 0
 
 
-def tie_inlines(c, tier, profile="debug", frac=1.0):
+def tie_inlines(c, tier, profile="debug", frac=1.0, on_impl_panic=None):
     """correspondence `inlines.<scope>`; returns True when every compared block agrees.  frac < 1 keeps that
     fraction of every scope (property checks that share this tie; full scopes in INLINES_TIE / C04 thorough)"""
     import docgen, shrink
@@ -434,6 +434,9 @@ def tie_inlines(c, tier, profile="debug", frac=1.0):
             if cls in ("agree", "dropped_def", "scope"):
                 continue
             if cls == "impl_panic":
+                if on_impl_panic is not None:
+                    on_impl_panic(o, md, detail, line)
+                    continue
                 c.violation("parse_document panics: " + detail[:200], {"opts": o, "md": hx(md), "line": line})
                 continue
             all_ok = False
